@@ -105,15 +105,18 @@ def CGrammar.kv (g : CGrammar) : List KV :=
 
 /-! ### abstraction: what the grammar parser checks and computes -/
 
-/-- `parse_number` on a NUMBER lexeme: defined iff `int()` succeeds and the value fits u32 -/
+/-- `parse_number` on a NUMBER lexeme: defined iff it has at most ten significant digits and the
+    value fits u32 -/
 def absNum (w : Text) : Option Nat :=
-  match pyInt w with
-  | some (some v) => if v > MAX_REPEAT then none else some v.toNat
-  | _ => none
+  if (stripZeros w).length > 10 then none
+  else match pyInt (stripZeros w) with
+    | some (some v) => if v > MAX_REPEAT then none else some v.toNat
+    | _ => none
 
-/-- `parse_int` on an INTEGER lexeme -/
+/-- `parse_int` on an INTEGER lexeme: defined iff `int()` accepts the sign and the significant
+    digits -/
 def absInt (w : Text) : Option Int :=
-  match pyInt w with
+  match pyInt (intLiteral w) with
   | some (some v) => some v
   | _ => none
 
